@@ -65,6 +65,11 @@ CHECKS = {
    technique='TLA+ adversary model of the encrypted packet stream (specs/Transport/Tamper.tla) model-checked with TLC; every adversary schedule of the model replayed by a packet-boundary MITM on live sessions',
    text='TLC exhausts up to two adversary actions (bit flip in length/body/padding/tag, truncation, drop, duplicate, swap, replayed/foreign/forged splice) at every position of a packet stream for the four shapes of the encryption layer against TamperEvident/PrefixIntact (the parse-after-error variant must fail for GCM); every distinct schedule is replayed on live authenticated sessions in both directions at several session phases for representative (thorough: all) cipher/MAC/compression combinations; monitors: application data is a prefix of what was written, data before the first altered packet arrived, an altered stream never ends in a clean close.',
    note='Trusted: TLC, virtual loop with selector semantics, MITM of drivers/transport.py. Adversary granularity: whole packets + in-packet bit flips/truncation. F6 (re-parse between fatal error and deferred clean-up) is outside what this harness can produce (see DESIGN.md).'),
+ 'C11': dict(
+   category='model_checking', design_ref='DESIGN.md §5.11',
+   technique='TLA+ model of key re-exchange on a busy connection (specs/Transport/Rekey.tla) model-checked with TLC incl. liveness; behaviours replayed packet by packet into a real pair; busy live sessions decoded by the independent decoder',
+   text='TLC exhausts application sends from both sides interleaved with every step of (repeated, possibly simultaneous) key re-exchanges against FIFOExactlyOnce/NoKeyMismatch/OnlyKexBetween/EpochsInStep and the liveness property Completes (the flush-before-NEWKEYS variant is rejected); hundreds of behaviours are replayed at packet granularity with emitted message kinds, pending packets and received data compared after every step; live sessions with byte limits from 1 upward on several cipher families with requests and channel opens in flight must echo intact, emit only kex messages between KEXINIT and NEWKEYS, keep the session id, and be decodable by an independent decoder that switches to freshly derived keys at every NEWKEYS.',
+   note='Trusted: TLC, hooks pkt_out/keylog, wire.py. Replay thresholds are 0/1 application packet; time-based re-keying shares the trigger path and is not driven by the virtual clock. Algorithm change between exchanges is not exercised.'),
 }
 NOT_YET = 'check under construction in this round; see DESIGN.md §9'
 
